@@ -65,6 +65,13 @@ def run(ck: Checker):
         from .c04 import check_containment
 
         check_containment(ck, 'C04-1')  # a failing preprocess / call becomes that request's answer; the service loops go on
+        from .c04 import check_outcome_unpack
+        from .c09 import BUF, check_deadline_shape
+        from .common import WORKER
+
+        check_outcome_unpack(ck, 'C04-10')  # ... and the worker loop is not ended by taking an exception outcome apart
+        # the batch consumer cannot be killed by an expired deadline (negative timeout) -- its requests would never be answered
+        check_deadline_shape(ck, 'C09-4', ck.repo.func(WORKER, 'Worker._get_input_batch'), queue=BUF, wait_attr='self.batch_wait_time', size_attr='self.batch_size')
         c09.check_queue_locks(ck, 'C09-7')
         c09.check_batch_returned(ck, 'C09-7', ck.repo.func(WORKER, 'Worker._get_input_batch'))
 
